@@ -104,6 +104,29 @@ pub fn run(op: &str, case: &Value) -> Result<Value> {
             }
             json!({"variants": variants})
         }
+        "evaluate_instance_variants" => {
+            // like evaluate_instance, repeated with freshly decoded messages (fresh HashMap RandomState each time):
+            // every distinct outcome over the iteration orders met is reported in full
+            let st: v1::State = msg(&case["state"])?;
+            let mut variants: Vec<Value> = vec![];
+            let mut seen: Vec<String> = vec![];
+            for _ in 0..case["tries"].as_u64().unwrap_or(200) {
+                let inst: v1::Instance = msg(&case["instance"])?;
+                let (key, r) = match inst.evaluate(&st) {
+                    Ok((sol, used)) => {
+                        let mut ents: Vec<(u64, u64)> = sol.state.clone().unwrap_or_default().entries.into_iter().map(|(k, v)| (k, v.to_bits())).collect();
+                        ents.sort();
+                        (format!("{ents:?} {:?} {:?}", sol.objective.to_bits(), sol.feasible), json!({"ok": {"solution": enc(&sol), "used": ids(used)}}))
+                    }
+                    Err(e) => ("err".to_string(), errv(e)),
+                };
+                if !seen.contains(&key) {
+                    seen.push(key);
+                    variants.push(r);
+                }
+            }
+            json!({"variants": variants})
+        }
         "substitute_then_eval" => {
             let mut inst: v1::Instance = msg(&case["instance"])?;
             for step in case["steps"].as_array().ok_or_else(|| anyhow!("steps"))? {
@@ -281,6 +304,13 @@ pub fn run(op: &str, case: &Value) -> Result<Value> {
             }
             let b = f.evaluate_bound(&bounds);
             json!({"ok": {"bound": [fj(b.lower()), fj(b.upper())]}})
+        }
+        "content_factor" => {
+            let f: Function = msg(&case["f"])?;
+            match f.content_factor() {
+                Ok(a) => json!({"ok": fj(a)}),
+                Err(e) => errv(e),
+            }
         }
         "mps_load" => {
             let text = case["text"].as_str().ok_or_else(|| anyhow!("text"))?;
